@@ -87,6 +87,13 @@ def combos(chk, tier):
         netgen.leeds_line(3, ["H", "H"], ["H2"]), netgen.leeds_line(4, ["CO"], ["GCO"], rtype=7), netgen.leeds_line(5, ["GCO"], ["CO"], rtype=8),
         netgen.leeds_line(6, ["H+", "GRAIN-"], ["H", "GRAIN0"], rtype=6), netgen.leeds_line(7, ["H", "CO"], ["HCO+", "e-"])]) + "\n")
     out.append(("leeds-grain-species+hh93", [d / "grains.leeds"], ["leeds"], "hh93", {}, G))
+    out.append(("leeds-grain-species+hh93i", [d / "grains.leeds"], ["leeds"], "hh93i", {}, G))
+    # the bundled Leeds network without the species whose names give illegal identifiers (known finding F9): everything else of
+    # that network must compile with every hh93 variant
+    (d / "legal.leeds").write_text("".join(l for l in (DATA / "rate12_HO.leeds").read_text().splitlines(True)
+                                           if "*" not in l and "c-" not in l and "l-" not in l))
+    for g in ["hh93", "hh93i"]:
+        out.append((f"leeds-legal+{g}", [d / "legal.leeds"], ["leeds"], g, {}, G))
     out.append(("leeds-grain-species+nograin", [d / "grains.leeds"], ["leeds"], "", {}, G))
     out.append(("leeds-photo+nograin", [d / "photo.leeds"], ["leeds"], "", {}, G))
     out.append(("leeds-uclchem-mixture+nograin", [d / "photo.leeds", d / "ice-notherm.ucl"], ["leeds", "uclchem"], "", {}, E))
